@@ -200,6 +200,14 @@ static int parse_prog(int pi, char * s) {
             c->data = malloc(n + 1); c->data_len = n + 1;     /* string storage: size includes the NUL */
             for (uint32_t i = 0; i < n; ++i) c->data[i] = (uint8_t) ('a' + (mix64((uint64_t) c->a[1] * 31 + i) % 26));
             c->data[n] = 0;
+            /* optional 5th token: which data_size the caller passes for the string (the API takes strlen + 1 for STRING/JSON storage
+               whatever is passed): 0 = n + 1, 1 = 0, 2 = n (the NUL not counted), 3 = n / 2 */
+            switch ((nt > 4) ? (int) A(4) : 0) {
+                case 1: c->data_len = 0; break;
+                case 2: c->data_len = n; break;
+                case 3: c->data_len = n / 2; break;
+                default: break;
+            }
         }
         else if (0 == strcmp(tok[0], "utc")) { c->kind = K_UTC; c->a[0] = A(1); c->a[1] = A(2); c->a[2] = A(3); }
         else if (0 == strcmp(tok[0], "ud")) {
